@@ -86,8 +86,16 @@ def run(model: Model, rep: Report) -> None:
         r2.check(arms.get(k) == w, site(fl), fl.qualname, f"style {k} -> {w}", why=f"got {arms.get(k)!r}")
     lb = model.func(D + "PageLabels.labels")
     s2 = "".join(unparse(lb.node).split())
-    r2.check("style=label_dict.get('S')" in s2 and "prefix=decode_text(str_value(label_dict.get('P',b'')))" in s2 and "first_value=int_value(label_dict.get('St',1))" in s2 and "yield(prefix+label)" in s2, site(lb), lb.qualname, "a range uses /S, /P (decoded text string, default empty) and /St (default 1); label = prefix + numeral", why="label dictionary handling changed")
+    r2.check(("style=label_dict.get('S')" in s2 or "style=resolve1(label_dict.get('S'))" in s2) and "prefix=decode_text(str_value(label_dict.get('P',b'')))" in s2 and "first_value=int_value(label_dict.get('St',1))" in s2 and "yield(prefix+label)" in s2, site(lb), lb.qualname, "a range uses /S, /P (decoded text string, default empty) and /St (default 1); label = prefix + numeral", why="label dictionary handling changed")
     r2.check("range_length=end-start" in s2 and "values=range(first_value,first_value+range_length)" in s2 and "itertools.count(first_value)" in s2, site(lb), lb.qualname, "a range covers the pages up to the next range's start; the last range is unbounded", why="range arithmetic changed")
+    # every entry of a label dictionary may be an indirect reference: each one is read through a resolving accessor
+    r8 = rep.rule("C17-R8", "SIBLING", "page labels: /S, /P and /St are all resolved before use (siblings agree)", 3)
+    ld_reads = [c for c in ast.walk(lb.node) if isinstance(c, ast.Call) and (dotted(c.func) or "") == "label_dict.get" and c.args and isinstance(c.args[0], ast.Constant)]
+    if len(ld_reads) < 3:
+        raise AnchorMissing("PageLabels.labels: reads of the label dictionary not found")
+    for c in ld_reads:
+        wrapped = any(isinstance(n, ast.Call) and (dotted(n.func) or "") in ("resolve1", "str_value", "int_value", "literal_name", "num_value", "dict_value", "list_value") and n.args and n.args[0] is c for n in ast.walk(lb.node))
+        r8.check(wrapped, site(lb, c), lb.qualname, f"{unparse(c)} is the argument of a resolving accessor", why=f"/{c.args[0].value} given as an indirect reference reaches the label formatting as a PDFObjRef (the other entries of the same dictionary are resolved): the style is not recognised and the numeric part of the label is lost")
     # ---------------------------------------------------------------- R3
     r3 = rep.rule("C17-R3", "ORDER", "outline traversal: the entry, then its children one level deeper, then its following siblings at the same level", 2)
     se = model.func(D + "PDFDocument.get_outlines.search")
